@@ -73,7 +73,7 @@ def nostd_batch(ctx, tier):
 
 def run(tier, seed):
     ctx = core.Ctx("C20", tier, seed, LEVEL)
-    srcs = streams.exploration_sources(ctx, tier, seed, caps={"arms": 20000, "c15": 8000}, which=("arms", "c15", "c04", "repo"))
+    srcs = streams.exploration_sources(ctx, tier, seed, caps={"arms": 20000, "c15": 8000}, which=("arms", "c15", "c04", "c08", "repo"))
     inp = [{"id": i, "src": s[2]} for i, s in enumerate(srcs)]
     res = core.expand(inp, "syn1")
     acc = [(i, rr["runs"][0]) for i, rr in enumerate(res) if rr["runs"][0]["verdict"] == "ok"]
